@@ -182,7 +182,7 @@ PROPS = {
     "C17": {
         "families": [("owning", 1200, 30000), ("faults", 200, 6000)],
         "monitors": [],
-        "theorems": ["C17_value_is_exit_value", "C17_exit_value_is_final_state", "C17_second_join_gets_none", "C17_first_join_takes_handle"],
+        "theorems": ["C17_value_is_exit_value", "C17_exit_value_is_final_state", "C17_second_join_gets_none", "C17_first_join_takes_handle", "C17_one_taker_per_actor", "C17_value_only_to_the_taker", "C17_value_handed_out_at_most_once"],
         "nontrivial": nt_c17,
         "rule": "cases generated from (family, VERIF_SEED, index): submissions through the owning address and derived handles, join futures created / awaited / dropped, consume, detach at random positions, repeated joins, every termination cause; non-trivial = a join or consume was issued on an actor that handled messages, and there was a second join or a failure; distinct = distinct case JSON",
         "assumptions": ["join futures are awaited to completion once polled (a pending join future that is dropped and a second join polled while the first is pending are outside the generated programs: finding F6)"],
@@ -256,8 +256,8 @@ PROPS = {
     },
     "C05": {
         "families": [("handles", 1000, 25000), ("mailbox", 200, 6000), ("timers", 200, 6000), ("registry", 300, 8000), ("children", 200, 6000)],
-        "monitors": ["C03"],
-        "theorems": ["C05_strong_counted_weak_not", "C05_drop_gives_back", "C05_upgrade_iff_strong_reference", "C05_last_drop_drains_then_stops", "C05_accounting_invariant", "C05_strong_handle_keeps_alive", "C05_no_exit_while_strongly_held", "C05_registry_keeps_alive"],
+        "monitors": ["C03", "C05"],
+        "theorems": ["C05_strong_counted_weak_not", "C05_drop_gives_back", "C05_upgrade_iff_strong_reference", "C05_last_drop_drains_then_stops", "C05_accounting_invariant", "C05_strong_handle_keeps_alive", "C05_no_exit_while_strongly_held", "C05_registry_keeps_alive", "C05_no_resurrection", "C05_upgrade_fails_for_ever", "C05_discipline_refines_the_model"],
         "nontrivial": nt_c05,
         "rule": "cases generated from (family, VERIF_SEED, index): clone / downgrade / upgrade / convert between all seven handle kinds, moves between client tasks, drops in any order interleaved with submissions, timers and registry entries and child lists holding references; non-trivial = handles of at least two kinds were created, one was dropped, and an upgrade was attempted or the actor ended; distinct = distinct case JSON",
         "assumptions": ["broker subscriptions are covered by C09's family, not here"],
@@ -359,7 +359,8 @@ MANIFEST_TEXT = {
     "C05": {
         "text": "Theorems (Coq): C05_accounting_invariant (for every trace the model accepts from its initial state there is an assignment of references to holders under which the count of references to each actor's waiting closure covers every strong handle in the table, every client operation holding a transient reference, every parked timer and the registry) with its consequences for every reachable state: "
                 "C05_strong_handle_keeps_alive (an actor any strong handle points to has a non-zero count: weak handles upgrade, the mailbox is not closed), C05_no_exit_while_strongly_held (when an actor nobody stopped takes the closed-mailbox exit every handle left is weak), C05_registry_keeps_alive; "
-                "and one-step theorems: C05_strong_counted_weak_not, C05_drop_gives_back, C05_upgrade_iff_strong_reference, C05_last_drop_drains_then_stops (the closed-mailbox exit needs an empty queue: everything accepted was handled). Broker subscriptions are C09 (the table holds no reference).",
+                "and one-step theorems: C05_strong_counted_weak_not, C05_drop_gives_back, C05_upgrade_iff_strong_reference, C05_last_drop_drains_then_stops (the closed-mailbox exit needs an empty queue: everything accepted was handled). Broker subscriptions are C09 (the table holds no reference). "
+                "'Upgrading fails for ever once no strong handle is left': C05_no_resurrection / C05_upgrade_fails_for_ever - on every execution of any length that keeps the discipline 'a strong handle is made only from a live strong reference' (Chk/C05.v; the extracted chk_C05 checks it on every implementation trace, C05_discipline_refines_the_model), a count that has returned to zero stays zero and every later upgrade fails.",
         "note": COMMON_NOTE,
         "technique": "Rocq/Coq proof (invariant over all reachable states by induction over the trace, with a ghost assignment of references to holders; one-step theorems) over an executable model with explicit reference counts; correspondence by differential run of model and implementation",
         "design_ref": "DESIGN.md section 6 C05",
@@ -407,9 +408,10 @@ MANIFEST_TEXT = {
     "C17": {
         "text": "Theorems (Coq, one-step, for every state): C17_value_is_exit_value (a join returns Some v only when the actor's exit value is Ok v), C17_exit_value_is_final_state (the exit value is the user state when the task returns from the phase after the final stopped(); a failed end records no value), "
                 "C17_first_join_takes_handle / C17_second_join_gets_none (the value is handed out once). That the implementation's join values equal the model's is the correspondence check on the owning family; the search acceptor checks value = fold of handled messages, once, after the task ended. "
-                "[partial] stated as one-step theorems about the model, not as one trace theorem.",
+                "Over whole executions (induction over traces of any length): C17_one_taker_per_actor (in every reachable state at most one join / consume per actor can still receive the value, and only after the task handle was taken), C17_value_only_to_the_taker, C17_value_handed_out_at_most_once (no execution contains two value-carrying returns of join / consume on one actor). "
+                "[partial] 'resolves exactly when the actor has terminated' is C02_dead_target_resolves plus the one-step theorems; known finding F6 (an abandoned join future takes the handle with it) is about the implementation handing the value to nobody, which these theorems do not exclude.",
         "note": COMMON_NOTE,
-        "technique": "Rocq/Coq proof (one-step theorems over all states) over an executable model; correspondence by differential run of model and implementation",
+        "technique": "Rocq/Coq proof (invariant over all reachable states by induction over traces + one-step theorems over all states) over an executable model; correspondence by differential run of model and implementation",
         "design_ref": "DESIGN.md section 6 C17",
     },
     "C06": {
